@@ -27,6 +27,8 @@ type Op map[string]any
 // Call is one recorded function invocation.
 type Call struct {
 	Seq      int
+	LogSeq   int // position of the API request log when the call was made
+	Step     int // scheduler step of the call
 	TaskID   int
 	Function string // Function name the connection was created for
 	Target   string // gRPC target (endpoint)
@@ -47,6 +49,8 @@ type Transport struct {
 	// OnCall is invoked (in the task goroutine, while the scheduler waits) after each call.
 	OnCall func(*Call)
 	Faults bool
+	// LogSeq returns the current position of the API request log.
+	LogSeq func() int
 }
 
 var fnMenu = []sim.Outcome{sim.ErrBefore, sim.CrashBefore}
@@ -67,6 +71,10 @@ func (t *Transport) CreateInterceptor(name, _ string) grpc.UnaryClientIntercepto
 		if tk := sim.TaskFrom(ctx); tk != nil {
 			c.TaskID = tk.ID
 		}
+		if t.LogSeq != nil {
+			c.LogSeq = t.LogSeq()
+		}
+		c.Step = t.Sim.Step
 		t.Calls = append(t.Calls, c)
 		done := func(err error) error {
 			c.Err = err
@@ -74,12 +82,6 @@ func (t *Transport) CreateInterceptor(name, _ string) grpc.UnaryClientIntercepto
 				t.OnCall(c)
 			}
 			return err
-		}
-		if o == sim.ErrBefore {
-			return done(status.Error(codes.Unavailable, "simfn: injected transport error"))
-		}
-		if t.BetaOnly[name] && !beta {
-			return done(status.Error(codes.Unimplemented, "unknown service apiextensions.fn.proto.v1.FunctionRunnerService"))
 		}
 		// wire round trip: the function sees exactly the bytes on the wire.
 		b, err := proto.MarshalOptions{Deterministic: true}.Marshal(req.(proto.Message))
@@ -91,6 +93,12 @@ func (t *Transport) CreateInterceptor(name, _ string) grpc.UnaryClientIntercepto
 			return done(err)
 		}
 		c.Req = in
+		if o == sim.ErrBefore {
+			return done(status.Error(codes.Unavailable, "simfn: injected transport error"))
+		}
+		if t.BetaOnly[name] && !beta {
+			return done(status.Error(codes.Unimplemented, "unknown service apiextensions.fn.proto.v1.FunctionRunnerService"))
+		}
 		rsp := Run(in)
 		c.Rsp = rsp
 		rb, err := proto.MarshalOptions{Deterministic: true}.Marshal(rsp)
